@@ -1004,6 +1004,9 @@ class Engine:
         capture = getattr(self, 'capture_exc', False)
         comp_all = (getattr(self.contract, 'comp_all', None) or {}).get(self.comp_ordinal(e)) if self.contract else None
         effect = getattr(self.contract, 'comp_effects', {}).get(self.comp_ordinal(e)) if self.contract else None
+        comp_map = (getattr(self.contract, 'comp_maps', None) or {}).get(self.comp_ordinal(e)) if self.contract else None
+        if comp_map is not None:
+            comp_map = (comp_map[0], list(comp_map[1](self)))
         pre_state = st
         if effect is not None:
             st = effect.enter(self, st, n)          # obligation inv(0); havoc; nothing assumed yet
@@ -1053,6 +1056,9 @@ class Engine:
                     t, s2 = self.term(v, s2)
                     for (fl, ps) in comp_all:
                         self.oblige(s2, f"comp{self.comp_ordinal(e)}:element:{fl.name}", fl.pred(t, *ps))
+                if comp_map is not None and len(desc.sources) == 1:
+                    t, s2 = self.term(v, s2)
+                    self.oblige(s2, f"comp{self.comp_ordinal(e)}:map:element_is_the_named_function_of_the_source_element", t == comp_map[0].elem(x, *comp_map[1]))
                 if effect is not None:
                     effect.step(self, s2, k0)      # obligation inv(k0+1)
                 elif not self.only_fresh_writes(s2, inner, watermark):
@@ -1062,6 +1068,10 @@ class Engine:
             if comp_all is not None:
                 # map rule: the element expression satisfies P at an arbitrary index, hence every element of the result does
                 s = s.assume(*[fl(R, *ps) for (fl, ps) in comp_all])
+            if comp_map is not None and len(desc.sources) == 1:
+                # the contract names the mapping (MapList): pointwise equal lists of equal length are equal (extensionality; induction on the source)
+                seq = z3.simplify(self.src_seq(desc.sources[0][0], desc.sources[0][1], st))
+                s = s.assume(R == comp_map[0](seq, *comp_map[1]))
             if effect is not None:
                 s = effect.exit(self, s, n)
             out.append((s, PyMapped(V.List(R), n, elem)))
